@@ -93,6 +93,7 @@ func loadRepo(dir string, overlay map[string][]byte) (*Ctx, error) {
 	computeFuncAliases(c, curLayout)
 	curCtx = c
 	paramCellMemo = map[*ssa.Parameter]*ssa.Alloc{}
+	fnKeyMemo = map[*ssa.Function]string{}
 	// Enumerate functions: package members, methods of every named type (AllFunctions misses methods of
 	// generic types that nothing references), closures recursively.
 	var rels []string
@@ -152,6 +153,7 @@ func loadRepo(dir string, overlay map[string][]byte) (*Ctx, error) {
 	}
 	curCtx = c
 	paramCellMemo = map[*ssa.Parameter]*ssa.Alloc{}
+	fnKeyMemo = map[*ssa.Function]string{}
 	return c, nil
 }
 
